@@ -1147,25 +1147,26 @@ func (pid *PID) Ask(ctx context.Context, to *PID, message any, timeout time.Dura
 	to.doReceive(receiveContext)
 	timer := timers.Get(timeout)
 
+	// receiveContext belongs to the target's mailbox from here on: it is recycled
+	// one dequeue after it was handed out and may already serve another request,
+	// so it must not be touched any more (in particular its responseClosed flag).
 	select {
 	case result := <-responseCh:
 		timers.Put(timer)
-		receiveContext.responseClosed.Store(true)
+		// the one reply has arrived, nobody will send on the channel again
 		putResponseChannel(responseCh)
 		return result, nil
 	case <-ctx.Done():
 		err = errors.Join(ctx.Err(), gerrors.ErrRequestTimeout)
 		pid.handleReceivedErrorWithMessage(pid, message, err)
 		timers.Put(timer)
-		receiveContext.responseClosed.Store(true)
-		putResponseChannel(responseCh)
+		// the target may still reply: leave the channel to the GC instead of
+		// pooling it, so a late reply can never reach another request
 		return nil, err
 	case <-timer.C:
 		err = gerrors.ErrRequestTimeout
 		pid.handleReceivedErrorWithMessage(pid, message, err)
 		timers.Put(timer)
-		receiveContext.responseClosed.Store(true)
-		putResponseChannel(responseCh)
 		return nil, err
 	}
 }
